@@ -144,6 +144,9 @@ def execute(plan, tape):
     touched = []            # (client, set of non-leaf subterm keys, call kind+extras)
     first_result = {}       # spec json -> raw FNode result (for identity on repetition)
     subcache = {}
+    state_last = {"formula": None}
+    shared_dict = {}        # client -> the one dict object it keeps re-using
+    shared_bp = {}          # client -> blueprint content of that dict
 
     def probe(n):
         probes[n] = probes.get(n, 0) + 1
@@ -162,13 +165,25 @@ def execute(plan, tape):
                 elif sig2[0] == k and sig2[1] != json.dumps({a: b for a, b in spec.items() if a not in ("client",)}, sort_keys=True):
                     nontrivial = True
                     probe("same_formula_different_arguments")
-        key = json.dumps({a: b for a, b in spec.items() if a != "client"}, sort_keys=True)
+        key = json.dumps({a: b for a, b in spec.items() if a not in ("client", "_dict")}, sort_keys=True)
         touched.append((spec["client"], subcache[i], (k, key)))
         if len(touched) > 40:
             touched.pop(0)
         # ---- aged environment
+        derived_src = state_last["formula"] if spec.get("derived") else None
+        spec = dict(spec)
+        if k == "substitute_shared":
+            c = spec["client"]
+            shared_bp.setdefault(c, {})
+            if c not in shared_dict:
+                shared_dict[c] = {}
+            for kt, vt in spec.get("update", []):
+                shared_bp[c][json.dumps(kt)] = (kt, vt)
+                shared_dict[c][bp.build(kt, env)] = bp.build(vt, env)     # in-place update of the client's dict
+            spec["_dict"] = shared_dict[c]
+            probe("shared_dict_updated_in_place")
         try:
-            f = bp.build(term, env)
+            f = bp.build(term, env) if derived_src is None else derived_src
             aged_build = None
         except Exception as ex:
             f, aged_build = None, type(ex).__name__
@@ -178,12 +193,23 @@ def execute(plan, tape):
         with Environment() as fresh:
             _declare_all(fresh, symbols)
             try:
-                ff = bp.build(term, fresh)
+                if derived_src is None:
+                    ff = bp.build(term, fresh)
+                else:
+                    # the derived formula re-created in the fresh environment (public API)
+                    ff = fresh.formula_manager.normalize(derived_src)
+                    probe("call_on_derived_formula")
                 fresh_build = None
             except Exception as ex:
                 ff, fresh_build = None, type(ex).__name__
             if ff is not None and f is not None:
-                spec_out = calls.outcome(fresh, spec, ff, term, user)
+                fspec = spec
+                if k == "substitute_shared":
+                    fspec = dict(spec)
+                    fspec["_dict"] = dict((bp.build(kt, fresh), bp.build(vt, fresh))
+                                          for kt, vt in shared_bp[spec["client"]].values())
+                spec_out = calls.outcome(fresh, fspec, ff, term, user)
+        spec.pop("_dict", None)
         if aged_build != fresh_build:
             raise Violation("C14:build:history-dependent",
                             "step %d: constructing pool[%d]=%s %s in the aged environment but %s in a fresh one" %
@@ -202,7 +228,11 @@ def execute(plan, tape):
             raise Violation("C14:fresh:collides", "FreshSymbol returned the existing user symbol %s" % aged[2][1])
         # ---- repetition returns the very same object
         from pysmt.fnode import FNode
-        if k in calls.IDEMPOTENT_OBJECT_CALLS and aged[0] == "ok" and isinstance(aged[2], FNode):
+        if aged[0] == "ok" and isinstance(aged[2], FNode) and k in ("simplify", "substitute", "substitute_shared",
+                                                                    "nnf", "prenex", "aig", "cnf"):
+            state_last["formula"] = aged[2]
+        if k in calls.IDEMPOTENT_OBJECT_CALLS and aged[0] == "ok" and isinstance(aged[2], FNode) \
+                and not spec.get("derived"):
             if key in first_result:
                 probe("repeated_call")
                 if first_result[key] is not aged[2]:
